@@ -117,7 +117,7 @@ def produce_lists(tier, rng, full, fmt):
         tp = TS_PAIRS[k % len(TS_PAIRS)]
         out.append(("n2-kv%d-%d-%s" % (a, b, tp), [prec(KV[a], tp[0], hs[k % len(hs)]), prec(KV[b], tp[1], hs[(k + 1) % len(hs)])],
                     ts_tags(tp)))
-    for k in range(27 if full else 9):
+    for k in range((100 if tier == "thorough" else 27) if full else 9):
         idx = [rng.randrange(9) for _ in range(3)]
         tsn = [rng.choice("ABCDZ") for _ in range(3)]
         out.append(("n3-s%d" % k, [prec(KV[idx[j]], tsn[j], hs[rng.randrange(len(hs))]) for j in range(3)], ts_tags(tsn)))
@@ -253,7 +253,7 @@ def fetch_cases(tier, seed, codecs):
         add(path, [], 0, ["emptylog"], origin=0)
         add(path, [mkbatch("v2:0", records(2, 10, 0))], 12, ["athw"])
     # several batches of different formats in one response
-    for k in range(30 if tier == "quick" else 200):
+    for k in range(30 if tier == "quick" else 500):
         nb = rng.randint(2, 4)
         off = 10
         batches = []
@@ -279,7 +279,11 @@ def fetch_cases(tier, seed, codecs):
     # a batch whose checksum does not match (Client.Fetch surfaces nothing of it)
     for form in ["v1", "v2:0"] + ["v1w:%d" % c for c in cz] + ["v2:%d" % c for c in cz]:
         for pos in (0, 1, 2):
-            batches = [mkbatch(form, records(2, 10, 3)), mkbatch(form, records(2, 12, 4)), mkbatch(form, records(1, 14, 5))]
+            if form == "v1":
+                # an uncompressed message carries its own checksum: one message per "batch", so that "the batch" is unambiguous
+                batches = [mkbatch(form, records(1, 10, 3)), mkbatch(form, records(1, 11, 4)), mkbatch(form, records(1, 12, 5))]
+            else:
+                batches = [mkbatch(form, records(2, 10, 3)), mkbatch(form, records(2, 12, 4)), mkbatch(form, records(1, 14, 5))]
             batches[pos]["corrupt"] = True
             add("client", batches, 10, ["corrupt"])
     # compacted logs: offsets with holes inside a batch, batch base before its first record, last offset after its last record
@@ -317,7 +321,9 @@ def pool_cases(tier, seed):
         return [{"id": "pool-client", "dir": "pool", "path": "client", "g": 8, "decodes": 150, "hold": 6, "parts": 5, "nbatch": 12, "seed": seed, "codec": seed % 5},
                 {"id": "pool-direct", "dir": "pool", "path": "direct", "g": 8, "decodes": 250, "hold": 6, "parts": 5, "nbatch": 12, "seed": seed + 1, "codec": (seed + 2) % 5}]
     return [{"id": "pool-client", "dir": "pool", "path": "client", "g": 16, "decodes": 2000, "hold": 8, "parts": 5, "nbatch": 20, "seed": seed, "codec": seed % 5},
-            {"id": "pool-direct", "dir": "pool", "path": "direct", "g": 16, "decodes": 2000, "hold": 8, "parts": 5, "nbatch": 20, "seed": seed + 1, "codec": (seed + 2) % 5}]
+            {"id": "pool-direct", "dir": "pool", "path": "direct", "g": 16, "decodes": 2000, "hold": 8, "parts": 5, "nbatch": 20, "seed": seed + 1, "codec": (seed + 2) % 5},
+            {"id": "pool-client-longhold", "dir": "pool", "path": "client", "g": 16, "decodes": 1000, "hold": 48, "parts": 5, "nbatch": 20, "seed": seed + 2, "codec": (seed + 3) % 5},
+            {"id": "pool-direct-uncompressed", "dir": "pool", "path": "direct", "g": 16, "decodes": 2000, "hold": 16, "parts": 3, "nbatch": 30, "seed": seed + 3, "codec": -1}]
 
 
 def gen_cases(tier, seed):
@@ -354,7 +360,7 @@ def pool_model(ctx):
         return r
 
     def main():
-        return again(lambda a: ctx.tlc(ENGINE, "PagePool", "MC_pool.cfg", workers=8, timeout=600 if ctx.tier == "quick" else 1500,
+        return again(lambda a: ctx.tlc(ENGINE, "PagePool", "MC_pool.cfg" if ctx.tier == "quick" else "MC_pool_thorough.cfg", workers=8, timeout=600 if ctx.tier == "quick" else 1500,
                                        extra=["-noGenerateSpecTE"], env={"JAVA_TOOL_OPTIONS": "-Xmx4g"}, tag="pool-main-%d" % a))
 
     def defect(df):
@@ -373,7 +379,9 @@ def pool_model(ctx):
             raise Inconclusive("vacuity guard failed: PagePool.tla with defect %s was not rejected: %s" % (df, r2["out"][-800:]))
         rejected[df] = r2["violated"]
     return {"states": r["distinct"], "transitions": r["generated"], "mc_depth": r["depth"], "pool_model_wall_s": round(r["wall"], 1),
-            "pool_model": "3 pages, 2 buffers, 3 refs, at most 2 pages per buffer, symmetry reduced", "pool_defects_rejected": rejected}
+            "pool_model": ("3 pages, 2 buffers, 3 refs, at most 2 pages per buffer" if ctx.tier == "quick" else
+                           "4 pages, 2 buffers, 3 refs, at most 3 pages per buffer") + ", exhaustive, symmetry reduced",
+            "pool_defects_rejected": rejected}
 
 
 # ------------------------------------------------------------------------------------------- judging
@@ -590,20 +598,21 @@ def key_of(l, clauses):
 
 
 def describe(l, clauses):
+    head = (",".join(clauses) + " false for") if clauses else "all clauses hold for"
     if l["dir"] == "produce":
         ins = [{"time": ("zero" if r["ts"]["zero"] else "T0+%d.%09ds" % (r["ts"]["s"], r["ts"]["ns"])), "key": short(r["key"]), "value": short(r["value"]),
                 "headers": len(r["headers"])} for r in l["in"]]
         dec = [{"ts_ms_rel": [d["ts"]["s"], d["ts"]["m"]], "key": short(d["key"]), "value": short(d["value"])} for d in l["wire"]["decoded"]]
-        return "%s false for %s (format v%d, %s): handed over %s; an independent decoder finds %s; library error %r, decoder error %r" % (
-            ",".join(clauses), path_label(l), l["fmt"], CODEC_NAME[l["codec"]], json.dumps(ins), json.dumps(dec), l["err"], l["wire"]["decodeErr"])
+        return "%s %s (format v%d, %s): handed over %s; an independent decoder finds %s; library error %r, decoder error %r" % (
+            head, path_label(l), l["fmt"], CODEC_NAME[l["codec"]], json.dumps(ins), json.dumps(dec), l["err"], l["wire"]["decodeErr"])
     if l["dir"] == "fetch":
         log = [{"fmt": b["fmt"], "codec": b["codec"], "wrap": b["wrap"], "control": b["control"], "corrupt": b["corrupt"], "base": b["base"], "last": b["last"],
                 "offsets": [r["off"] for r in b["recs"]]} for b in l["log"]]
         got = [{"off": g["off"], "key": short(g["key"]), "value": short(g["value"]), "ts": [g["ts"]["s"], g["ts"]["m"]]} for g in l["got"]]
-        return "%s false for %s reading from offset %d of log %s: returned %s, error %r" % (
-            ",".join(clauses), path_label(l), l["from"], json.dumps(log), json.dumps(got), l["err"])
+        return "%s %s reading from offset %d of log %s: returned %s, error %r" % (
+            head, path_label(l), l["from"], json.dumps(log), json.dumps(got), l["err"])
     p = {k: v for k, v in l["pool"].items() if k != "samples"}
-    return "%s false for the page-pool run %s: %s; first observations %s" % (",".join(clauses), l["id"], json.dumps(p), json.dumps(l["pool"]["samples"][:3]))
+    return "%s the page-pool run %s: %s; first observations %s" % (head, l["id"], json.dumps(p), json.dumps(l["pool"]["samples"][:3]))
 
 
 def short(s):
@@ -693,7 +702,7 @@ def run(ctx):
     for want in ("produce", "fetch"):
         l = next((x for x in lines if x["dir"] == want and x["id"] not in fails and len(x["in"] or x["got"]) >= 2), None)
         if l:
-            samples.append({"id": l["id"], "what": describe(l, ["(accepted line)"])[:700]})
+            samples.append({"id": l["id"], "what": describe(l, [])[:700]})
     for lid in list(fails)[:2]:
         samples.append({"id": lid, "failed_clauses": fails[lid], "key": key_of(byid[lid], fails[lid])})
     if pool:
